@@ -1,0 +1,29 @@
+//go:build verif
+
+// Hooks for the verification harness in /verif (properties C14, C08). Add-only:
+// nothing here is compiled without the `verif` build tag and nothing changes
+// the behaviour of the package.
+
+package uapolicy
+
+import "crypto"
+
+// VerifSymmetricKeys returns the key material a symmetric EncryptionAlgorithm
+// holds. ok is false when the algorithm does not consist of AES and HMAC
+// primitives (policy None, asymmetric algorithms).
+func VerifSymmetricKeys(e *EncryptionAlgorithm) (signKey, encKey, encIV, verifyKey, decKey, decIV []byte, ok bool) {
+	enc, ok1 := e.encrypt.(*AES)
+	dec, ok2 := e.decrypt.(*AES)
+	sig, ok3 := e.signature.(*HMAC)
+	ver, ok4 := e.verifySignature.(*HMAC)
+	if !(ok1 && ok2 && ok3 && ok4) {
+		return nil, nil, nil, nil, nil, nil, false
+	}
+	return sig.Secret, enc.Secret, enc.IV, ver.Secret, dec.Secret, dec.IV, true
+}
+
+// VerifGenerateKeys calls generateKeys with an HMAC of the given hash and secret.
+func VerifGenerateKeys(hash crypto.Hash, secret, seed []byte, signingLength, encryptingLength, encryptingBlockSize int) (signing, encryption, iv []byte) {
+	k := generateKeys(&HMAC{Hash: hash, Secret: secret}, seed, signingLength, encryptingLength, encryptingBlockSize)
+	return k.signing, k.encryption, k.iv
+}
